@@ -89,7 +89,7 @@ extern void prims_run_for_c05(void);
 static void c05_run(void) {
 	if (g_chance(3, 10)) { prims_run_for_c05(); return; }
 	qgen g; qgen_defaults(&g);
-	g.oracles = O_SYNCRET | O_SERIAL | O_HIER;   // hand-offs carry data only if the items are serialised in the first place
+	g.oracles = O_SYNCRET | O_SERIAL | O_HIER | O_BARRIER;   // hand-offs carry data only if the items are serialised (or excluded by barriers) in the first place
 	g.retarget = 2;
 	g.opmask |= (1u << OP_BARRIER_AAW) | (1u << OP_APPLY);
 	g.qkindmask |= 1u << QK_WORKLOOP;
